@@ -310,6 +310,8 @@ def _run_component(job):
         cl, lat = sym_connection_list(r, c)
         if pinned:
             pin(pinned)
+        if job.get("fix"):
+            pin(job["fix"])  # this instance covers the mazes with these bits; sibling instances cover the other values
         comp = LatticeMaze(connection_list=cl).gen_connected_component_from(np.array(cell))
         got = py_path(comp)
         ctx.notes["sig"] = sorted([list(x) for x in got])
@@ -928,6 +930,12 @@ def jobs(tier, seed):
             cells = [(0, 0), (1, 1), (2, 1)]
         for cell in cells:
             out.append(dict(h="component", r=r, c=c, cell=list(cell)))
+    if not q:
+        # 3x4: all 2^17 mazes from four start cells, split over 16 instances each by four bits around the centre (a single instance per cell exceeded its budget under load)
+        for cell in [(0, 0), (1, 1), (2, 3), (1, 3)]:
+            for vals in itertools.product([False, True], repeat=4):
+                out.append(dict(h="component", r=3, c=4, cell=list(cell), fix=dict(zip(["c_0_0_1", "c_1_1_1", "c_0_1_2", "c_1_1_0"], vals)), max_seconds=3300,
+                                label=f"component:3x4:{cell}:" + "".join("1" if v else "0" for v in vals)))
     for r, c in [(1, 1), (2, 2), (2, 3), (3, 2)] + ([] if q else [(3, 3)]):
         for sh0, sh1 in [(False, False), (True, True), (False, True), (True, False)]:
             if (r, c) == (3, 3) and sh1:
